@@ -283,3 +283,20 @@ theorem run_exhausted (t : OpTable) (hs : SizeOK t) (h : List Ev) (hb : BytesOK 
   cases hbuf : r.dis.buffer with
   | nil => simp
   | cons a l => simp
+
+/-- One event only ever appends to what has been emitted and written. -/
+theorem step_extends (t : OpTable) (r : Run) (e : Ev) :
+    r.emitted <+: (step t r e).emitted ∧ r.written <+: (step t r e).written := by
+  cases e with
+  | write bs => simp [step]
+  | poll =>
+    simp only [step]
+    split <;> simp
+
+theorem foldl_extends (t : OpTable) : ∀ (h : List Ev) (r : Run),
+    r.emitted <+: (h.foldl (step t) r).emitted ∧ r.written <+: (h.foldl (step t) r).written
+  | [], r => ⟨List.prefix_refl _, List.prefix_refl _⟩
+  | e :: h, r => by
+    have a := step_extends t r e
+    have b := foldl_extends t h (step t r e)
+    exact ⟨a.1.trans b.1, a.2.trans b.2⟩
